@@ -4,6 +4,7 @@
    memory keeps [len, cap) zero and refines a brand-new memory per frame; cached
    jumpdest analyses and cached precompile results equal fresh ones. *)
 From GV Require Import Lib.Tactics EVM.StackArena EVM.MemoryPool.
+From GV Require EVM.Jumpdest EVM.JumpdestCalls EVM.JumpdestCallsProofs.
 Local Open Scope Z_scope.
 
 (* ------------------------------------------------------------------ *)
@@ -257,6 +258,76 @@ Section ArenaProofs.
     destruct (snd b <? slen) eqn:E2; [discriminate|]. lia.
   Qed.
 
+  Lemma decode_single_range x : imm_single_ok x = true -> 17 <= decode_single x <= 235.
+  Proof.
+    unfold imm_single_ok, decode_single. intros H.
+    apply andb_true_iff in H as [Hx Hr]. apply N.ltb_lt in Hx.
+    apply negb_true_iff in Hr. apply andb_false_iff in Hr.
+    destruct Hr as [Hr|Hr]; apply N.ltb_ge in Hr.
+    - rewrite N.mod_small by lia. lia.
+    - replace (x + 145)%N with ((x - 111) + 1 * 256)%N by lia.
+      rewrite N.mod_add by discriminate. rewrite N.mod_small by lia. lia.
+  Qed.
+
+  Lemma decode_pair_nonneg x :
+    imm_pair_ok x = true -> 0 <= fst (decode_pair x) /\ 0 <= snd (decode_pair x).
+  Proof.
+    intros H. unfold imm_pair_ok in H. apply andb_true_iff in H as [Hx _]. apply N.ltb_lt in Hx.
+    pose proof (sweep1 256 (fun x => (0 <=? fst (decode_pair x)) && (0 <=? snd (decode_pair x)))
+                  ltac:(vm_compute; reflexivity) x Hx) as Hs.
+    cbv beta in Hs. apply andb_true_iff in Hs as [A B]. split; lia.
+  Qed.
+
+  (* the pointer swap of SWAPN / EXCHANGE:  i := back(n); j := back(m); *i, *j = *j, *i
+     with both inside the frame, on the arena and on the private stack *)
+  Lemma swap_back_refines a s fs p ps n m :
+    frame_ok (a_data a) (a_top a) s p -> ainv (a_data a) (s_bottom s) fs ps ->
+    0 <= n -> 0 <= m -> n + 1 <= plen p -> m + 1 <= plen p ->
+    let '((a', fs'), ob) :=
+      match stk_back a s n, stk_back a s m with
+      | Some u, Some v =>
+          match stk_set_back a s n v with
+          | Some a1 => match stk_set_back a1 s m u with
+                       | Some a2 => ((a2, s :: fs), BUnit)
+                       | None => panic (a, s :: fs) end
+          | None => panic (a, s :: fs) end
+      | _, _ => panic (a, s :: fs) end in
+    let '(ps', ob') :=
+      match zget p (plen p - n - 1), zget p (plen p - m - 1) with
+      | Some u, Some v =>
+          match zset p (plen p - n - 1) v with
+          | Some p1 => match zset p1 (plen p - m - 1) u with
+                       | Some p2 => (p2 :: ps, BUnit)
+                       | None => (p :: ps, BErr 4) end
+          | None => (p :: ps, BErr 4) end
+      | _, _ => (p :: ps, BErr 4) end in
+    ob = ob' /\ ainv (a_data a') (a_top a') fs' ps' /\
+    keeps (s_bottom s) (a_data a) (a_data a') /\ tl fs' = tl (s :: fs).
+  Proof.
+    pose proof limit_room as [Hlim Hroom].
+    intros (H1 & H2 & H3 & H4 & H5 & H6) Hr Hn Hm Hn1 Hm1.
+    unfold stk_back, stk_set_back. rewrite H1.
+    replace (s_bottom s + plen p - n - 1) with (s_bottom s + (plen p - n - 1)) by lia.
+    replace (s_bottom s + plen p - m - 1) with (s_bottom s + (plen p - m - 1)) by lia.
+    rewrite !(seg_zget _ _ _ _ H6) by lia.
+    destruct (zget_some p (plen p - n - 1)) as [u Hu]; [unfold len, plen in *; lia|]. rewrite Hu.
+    destruct (zget_some p (plen p - m - 1)) as [v Hv]; [unfold len, plen in *; lia|]. rewrite Hv.
+    destruct (zset_some (a_data a) (s_bottom s + (plen p - n - 1)) v) as [d1 Hz1]; [lia|]. rewrite Hz1.
+    assert (Hi1 : 0 <= plen p - n - 1 < plen p) by lia.
+    destruct (seg_set _ _ _ _ _ _ H6 Hi1 Hz1) as (p1 & Hp1 & Hs1 & Hl1). rewrite Hp1.
+    destruct (zset_spec _ _ _ _ Hz1) as (_ & Hld1 & _). cbn [a_data a_top].
+    destruct (zset_some d1 (s_bottom s + (plen p - m - 1)) u) as [d2 Hz2]; [lia|]. rewrite Hz2.
+    assert (Hi2 : 0 <= plen p - m - 1 < plen p1) by lia.
+    destruct (seg_set _ _ _ _ _ _ Hs1 Hi2 Hz2) as (p2 & Hp2 & Hs2 & Hl2). rewrite Hp2.
+    destruct (zset_spec _ _ _ _ Hz2) as (_ & Hld2 & _).
+    split; [reflexivity|]. cbn [a_data a_top tl s_bottom s_size].
+    assert (Hk : keeps (s_bottom s) (a_data a) d2).
+    { eapply keeps_trans; eapply keeps_set; eauto; lia. }
+    split; [|split; auto]. cbn [ainv]. split.
+    + unfold frame_ok. repeat split; try lia. auto.
+    + eapply ainv_keeps; eauto.
+  Qed.
+
   (* one step of the arena implementation and of the private stacks agree and keep the
      invariant; the arena below the active frame's bottom is untouched *)
   Lemma step_refines a fs ps o :
@@ -433,6 +504,47 @@ Section ArenaProofs.
       + rewrite Hd. split; [reflexivity|]. split; [auto|].
         destruct fs; repeat split; auto; lia.
       + split; [reflexivity|]. split; [auto|]. destruct fs; repeat split; auto; lia.
+    - (* ODupN *)
+      destruct fs as [|s fs], ps as [|p ps]; cbn in Hinv; try tauto; [cbn; repeat split; auto; lia|].
+      destruct Hinv as [(H1 & H2 & H3 & H4 & H5 & H6) Hr].
+      cbn [astep pstep bounds]. rewrite H1.
+      destruct (check (plen p) _) eqn:Ec; [cbn; repeat split; auto; lia|].
+      apply check_none in Ec. unfold min_stack, max_stack in Ec. cbn [fst snd] in Ec.
+      destruct (imm_single_ok x) eqn:Ex; cbn [negb]; [|cbn; repeat split; auto; lia].
+      pose proof (decode_single_range x Ex) as Hn. set (n := decode_single x) in *.
+      destruct (plen p <? n) eqn:En; [cbn; repeat split; auto; lia|].
+      unfold stk_back, stk_push. rewrite H1.
+      replace (s_bottom s + plen p - (n - 1) - 1) with (s_bottom s + (plen p - n)) by lia.
+      rewrite (seg_zget _ _ _ _ H6) by lia.
+      destruct (zget_some p (plen p - n)) as [v Hv]; [unfold len, plen in *; lia|]. rewrite Hv.
+      destruct (zset_some (a_data a) (a_top a) v) as [d' Hz]; [lia|]. rewrite Hz.
+      split; [reflexivity|]. cbn [a_data a_top tl s_bottom s_size].
+      assert (Hk : keeps (s_bottom s) (a_data a) d') by (eapply keeps_set; eauto; lia).
+      split; [|split; auto]. cbn [ainv s_bottom]. split.
+      + destruct (zset_spec _ _ _ _ Hz) as (_ & Hl & _). unfold frame_ok. cbn [s_bottom s_size].
+        rewrite plen_app. repeat split; try lia. rewrite H3 in Hz. eapply seg_app; eauto.
+      + eapply ainv_keeps; eauto.
+    - (* OSwapN *)
+      destruct fs as [|s fs], ps as [|p ps]; cbn in Hinv; try tauto; [cbn; repeat split; auto; lia|].
+      destruct Hinv as [(H1 & H2 & H3 & H4 & H5 & H6) Hr].
+      cbn [astep pstep bounds]. rewrite H1.
+      destruct (check (plen p) _) eqn:Ec; [cbn; repeat split; auto; lia|].
+      apply check_none in Ec. unfold min_stack, max_stack in Ec. cbn [fst snd] in Ec.
+      destruct (imm_single_ok x) eqn:Ex; cbn [negb]; [|cbn; repeat split; auto; lia].
+      pose proof (decode_single_range x Ex) as Hn. set (n := decode_single x) in *.
+      destruct (plen p <? n + 1) eqn:En; [cbn; repeat split; auto; lia|].
+      replace (plen p - 1) with (plen p - 0 - 1) by lia.
+      apply (swap_back_refines a s fs p ps 0 n); unfold frame_ok; repeat split; auto; lia.
+    - (* OExchange *)
+      destruct fs as [|s fs], ps as [|p ps]; cbn in Hinv; try tauto; [cbn; repeat split; auto; lia|].
+      destruct Hinv as [(H1 & H2 & H3 & H4 & H5 & H6) Hr].
+      cbn [astep pstep bounds]. rewrite H1.
+      destruct (check (plen p) _) eqn:Ec; [cbn; repeat split; auto; lia|].
+      apply check_none in Ec. unfold min_stack, max_stack in Ec. cbn [fst snd] in Ec.
+      destruct (imm_pair_ok x) eqn:Ex; cbn [negb]; [|cbn; repeat split; auto; lia].
+      pose proof (decode_pair_nonneg x Ex) as Hn. destruct (decode_pair x) as [n m]. cbn [fst snd] in Hn.
+      destruct (plen p <? Z.max n m + 1) eqn:En; [cbn; repeat split; auto; lia|].
+      apply (swap_back_refines a s fs p ps n m); unfold frame_ok; repeat split; auto; lia.
   Qed.
 
   Definition reach_inv (st : astate) (ps : pstate) : Prop :=
@@ -490,6 +602,56 @@ Section ArenaProofs.
     - eapply IH; eauto. unfold plen in *. lia.
   Qed.
 
+  Lemma check_some_12 l b e : check l b = Some e -> e = 1 \/ e = 2.
+  Proof.
+    unfold check. destruct (_ <? _); [intros H; inversion H; auto|].
+    destruct (_ <? _); intros H; inversion H; auto.
+  Qed.
+
+  Lemma pswap_no_panic p ps n m ps' :
+    0 <= n -> 0 <= m -> n + 1 <= plen p -> m + 1 <= plen p ->
+    match zget p (plen p - n - 1), zget p (plen p - m - 1) with
+    | Some u, Some v =>
+        match zset p (plen p - n - 1) v with
+        | Some p1 => match zset p1 (plen p - m - 1) u with
+                     | Some p2 => (p2 :: ps, BUnit)
+                     | None => (p :: ps, BErr 4) end
+        | None => (p :: ps, BErr 4) end
+    | _, _ => (p :: ps, BErr 4) end = (ps', BErr 4) -> False.
+  Proof.
+    intros Hn Hm Hn1 Hm1.
+    destruct (zget_some p (plen p - n - 1)) as [u Hu]; [unfold len, plen in *; lia|]. rewrite Hu.
+    destruct (zget_some p (plen p - m - 1)) as [v Hv]; [unfold len, plen in *; lia|]. rewrite Hv.
+    destruct (zset_some p (plen p - n - 1) v) as [p1 Hp1]; [unfold len, plen in *; lia|]. rewrite Hp1.
+    destruct (zset_spec _ _ _ _ Hp1) as (_ & Hl1 & _).
+    destruct (zset_some p1 (plen p - m - 1) u) as [p2 Hp2]; [unfold len, plen in *; lia|]. rewrite Hp2.
+    discriminate.
+  Qed.
+
+  Lemma pstep_8024_no_panic p ps o ps' :
+    match o with ODupN _ | OSwapN _ | OExchange _ => True | _ => False end ->
+    pstep (p :: ps) o = (ps', BErr 4) -> False.
+  Proof.
+    intros Ho Ep. destruct o; try tauto; cbn [pstep bounds] in Ep;
+      (destruct (check (plen p) _) as [e|] eqn:Ec;
+       [inversion Ep; subst; apply check_some_12 in Ec; lia|]);
+      apply check_none in Ec; unfold min_stack, max_stack in Ec; cbn [fst snd] in Ec.
+    - destruct (imm_single_ok x) eqn:Ex; cbn [negb] in Ep; [|discriminate].
+      pose proof (decode_single_range x Ex) as Hn. set (n := decode_single x) in *.
+      destruct (plen p <? n) eqn:En; [discriminate|].
+      destruct (zget_some p (plen p - n)) as [v Hv]; [unfold len, plen in *; lia|].
+      rewrite Hv in Ep. discriminate.
+    - destruct (imm_single_ok x) eqn:Ex; cbn [negb] in Ep; [|discriminate].
+      pose proof (decode_single_range x Ex) as Hn. set (n := decode_single x) in *.
+      destruct (plen p <? n + 1) eqn:En; [discriminate|].
+      replace (plen p - 1) with (plen p - 0 - 1) in Ep by lia.
+      eapply (pswap_no_panic p ps 0 n); eauto; lia.
+    - destruct (imm_pair_ok x) eqn:Ex; cbn [negb] in Ep; [|discriminate].
+      pose proof (decode_pair_nonneg x Ex) as Hn. destruct (decode_pair x) as [n m]. cbn [fst snd] in Hn.
+      destruct (plen p <? Z.max n m + 1) eqn:En; [discriminate|].
+      eapply (pswap_no_panic p ps n m); eauto; lia.
+  Qed.
+
   (* DISJOINTNESS: an operation of the active (child) frame that passes the interpreter's
      stack-bound check leaves every parent frame's window — position, size and contents —
      exactly as it was; it never panics. *)
@@ -510,7 +672,9 @@ Section ArenaProofs.
     - (* no panic: the private-stack step never answers 4 under the invariant; read it off pstep *)
       intros ->. clear Hstep Hinv' Hk.
       destruct Hf as (H1 & H2 & H3 & H4 & H5 & H6).
-      destruct o; try discriminate; cbn [pstep] in Ep;
+      destruct o; try discriminate.
+      10-12: (eapply pstep_8024_no_panic; [|exact Ep]; exact I).
+      all: cbn [pstep] in Ep;
         try (destruct (nth_error (p :: ps) k); inversion Ep; fail);
         destruct (bounds _) as [b|] eqn:Eb; try (inversion Ep; fail);
         (destruct (check (plen p) b) as [e|] eqn:Ec;
@@ -834,9 +998,11 @@ Section CacheProofs.
   Qed.
 
   (* a contract object as evm.go builds it, possibly already holding its own analysis *)
+  (* THE PAIRING OBLIGATION of the call paths (C30: frame_paired): a non-zero CodeHash is the
+     hash of exactly the code in Contract.Code, and that code is one of the codes in play *)
   Definition contract_ok (c : contract) : Prop :=
-    in_play (c_code _ _ _ c) /\
-    (forall h, c_hash _ _ _ c = Some h -> h = code_hash (c_code _ _ _ c)) /\
+    (forall h, c_hash _ _ _ c = Some h ->
+       in_play (c_code _ _ _ c) /\ h = code_hash (c_code _ _ _ c)) /\
     (forall a, c_analysis _ _ _ c = Some a -> a = analyse (c_code _ _ _ c)).
 
   (* CACHE TRANSPARENCY: whatever the shared cache went through — warm, cold, partly
@@ -847,15 +1013,14 @@ Section CacheProofs.
     let '(a, c', jd') := is_code_analysis code hash bitvec hash_eqb analyse c jd in
     a = analyse (c_code _ _ _ c) /\ jreach jd' /\ contract_ok c' /\ c_code _ _ _ c' = c_code _ _ _ c.
   Proof.
-    intros jd [cd ch ca] Hj (Hp & Hh & Ha). cbn [c_code c_hash c_analysis] in *.
+    intros jd [cd ch ca] Hj (Hh & Ha). cbn [c_code c_hash c_analysis] in *.
     unfold is_code_analysis. cbn [c_code c_hash c_analysis].
-    assert (Hfin : forall a h, a = analyse cd -> (forall h', h = Some h' -> h' = code_hash cd) ->
-              contract_ok (mkContract code hash bitvec cd h (Some a))).
-    { intros a h -> Hh'. repeat split; cbn; auto. intros a E. now inversion E. }
+    assert (Hfin : forall a, a = analyse cd -> contract_ok (mkContract code hash bitvec cd ch (Some a))).
+    { intros a ->. split; cbn; auto. intros a E. now inversion E. }
     destruct ca as [a|].
-    - repeat split; auto.
+    - split; [now apply Ha|]. split; [exact Hj|]. split; [apply Hfin; now apply Ha|reflexivity].
     - destruct ch as [h|].
-      + pose proof (Hh _ eq_refl) as Hh'. subst h.
+      + destruct (Hh _ eq_refl) as [Hp Hh']. subst h.
         destruct (jload jd (code_hash cd)) as [a|] eqn:El.
         * destruct (jreach_ok _ Hj _ _ El) as (c2 & Hp2 & Hh2 & ->).
           assert (c2 = cd) by (apply H_inj_on; auto). subst c2.
@@ -921,3 +1086,30 @@ Section CacheProofs.
   Lemma pcache_ok_nil : pcache_ok [].
   Proof. intros k out H. discriminate. Qed.
 End CacheProofs.
+
+(* ------------------------------------------------------------------ *)
+(* Bridge to C30 (EVM/JumpdestCalls.v): the call paths of evm.go, as modelled there
+   (resolveCode / resolveCodeHash incl. EIP-7702 designators, create with the zero hash),
+   discharge [contract_ok], the hypothesis of [cache_transparent].  Imported, not re-proved. *)
+
+Definition contract_of_frame (bitvec : Type) (fr : list N * Jumpdest.hash) : contract (list N) Jumpdest.hash bitvec :=
+  mkContract _ _ _ (fst fr) (if (snd fr =? 0)%N then None else Some (snd fr)) None.
+
+Lemma frame_paired_contract_ok (bitvec : Type) (H : list N -> Jumpdest.hash) (S : list N -> Prop)
+      (analyse : list N -> bitvec) fr :
+  JumpdestCalls.frame_paired H S fr -> contract_ok (list N) Jumpdest.hash bitvec H analyse S (contract_of_frame bitvec fr).
+Proof.
+  intros Hp. unfold contract_of_frame. split; cbn [c_code c_hash c_analysis]; [|discriminate].
+  intros h Eh. destruct (snd fr =? 0)%N eqn:E0; [discriminate|]. inversion Eh; subst h.
+  destruct Hp as [Hz|[HS HH]]; [apply N.eqb_neq in E0; contradiction|]. split; assumption.
+Qed.
+
+Theorem call_paths_contract_ok (bitvec : Type) (H : list N -> Jumpdest.hash) (S : list N -> Prop)
+      (analyse : list N -> bitvec) kind st prague addr fr :
+  JumpdestCallsProofs.state_ok H S st -> JumpdestCalls.call_frame kind st prague addr = Some fr ->
+  contract_ok (list N) Jumpdest.hash bitvec H analyse S (contract_of_frame bitvec fr) /\
+  c_code _ _ _ (contract_of_frame bitvec fr) = JumpdestCalls.executed_code st prague addr.
+Proof.
+  intros Hs Hc. destruct (JumpdestCallsProofs.call_frame_paired H S kind st prague addr fr Hs Hc) as (_ & Hp & He).
+  split; [now apply frame_paired_contract_ok|exact He].
+Qed.
